@@ -237,6 +237,8 @@ def generate(prop, rng, tier):
         if r < 0.68:
             steps.append({"op": "bc", "obj": rng.randrange(64), "prm": rng.randrange(64), "reenter": rng.random() < 0.3,
                           "subset": rng.random() < 0.25})
+        elif r < 0.72:
+            steps.append({"op": "bc_drop", "obj": rng.randrange(64), "prm": rng.randrange(64), "which": rng.randrange(8)})
         elif r < 0.78:
             steps.append({"op": "bc_scalar", "obj": rng.randrange(64), "scalar": rng.choice([5.0, -1.5, 0.0])})
         elif r < 0.88:
@@ -451,6 +453,39 @@ def _run(trace, out, log):
             log.add(k, "array", i, n, err is None)
             out.count("op:bc_array")
             if not check_pool(k, "bc_array"):
+                return
+            continue
+        if op == "bc_drop":
+            # droplevel variant: the returned pair deliberately has different indices, so only
+            # "operands unmodified" (B1) and the object's key-wise values are checked
+            j = int(st["prm"]) % len(pool)
+            prm_o = pool[j]
+            a, b = snaps[i], snaps[j]
+            an, bn = a["names"], b["names"]
+            named = [x for x in an if x is not None and x in bn]
+            if (isinstance(obj, pd.Series) and an == [None]) or not named or None in an or None in bn \
+                    or _has_duplicate_keys(a) or _has_duplicate_keys(b):
+                out.count("skipped:droplevel_layout")
+                continue
+            total = an + [x for x in bn if x not in an]
+            if len(total) < 2:
+                out.count("skipped:droplevel_layout")
+                continue
+            shared_ok = ({tuple(r[an.index(lv)] for lv in named) for r in a["rows"]}
+                         == {tuple(r[bn.index(lv)] for lv in named) for r in b["rows"]})
+            if not shared_ok:
+                out.count("skipped:shared_keys_not_in_both")
+                continue
+            dl = [total[int(st["which"]) % len(total)]]
+            try:
+                prm_r, obj_r = Broadcaster(obj).broadcast(prm_o, droplevel=dl)
+            except Exception as e:  # noqa
+                # C13 does not define droplevel; an exception is not judged, but the operands must survive
+                out.count("probe:droplevel_raises")
+                return        # operands may be left re-coded after a failed call; C13 does not speak about failed calls
+            log.add(k, "bc_drop", i, j, dl)
+            out.count("op:bc_drop")
+            if not check_pool(k, "bc_drop"):
                 return
             continue
         # ---- bc: pool object against pool object
@@ -706,7 +741,7 @@ def describe(prop):
                      "the returned pair must have identical index (B2), every returned row must carry the original's value at the row's key restricted to the original's levels, NaN where absent, no key lost or duplicated (B3/B5), derived calculation == scalar formula (B4). "
                      "distinct_nontrivial counts distinct layout signatures (operand kinds, level-name relation equal/permuted/disjoint/contained/overlapping, level counts, unnamed levels, alias kind)."),
             "assumptions": ["unique keys per operand; for partially shared levels every shared key combination occurs in both operands (steps violating the quantifier are skipped and counted)",
-                            "droplevel is not exercised (the returned pair then deliberately has different indices)",
+                            "droplevel calls are exercised only for 'operands unmodified' (the returned pair then deliberately has different indices; an exception there is counted, not judged)",
                             "two unnamed levels (one per operand) are only exercised for otherwise disjoint names, where the level order of the result is fixed",
                             "no exception is injected inside broadcast: C13 does not say operands survive a failed call"],
-            "required_probes": ["op:bc", "op:bc_scalar", "op:bc_array", "op:derived_calculation", "probe:reentered_operand", "seam:uuid4_calls"]}
+            "required_probes": ["op:bc", "op:bc_scalar", "op:bc_array", "op:bc_drop", "op:derived_calculation", "probe:reentered_operand", "seam:uuid4_calls"]}
